@@ -349,7 +349,8 @@ func (c *bhCtx) translate(fd *ast.FuncDecl) ([]string, error) {
 			case !c.isUE && cs == c.msg+".Ack()":
 				body := exprString(x.Body)
 				if !strings.Contains(body, c.recv+".memberlist.SendToAddress(addr, raw)") || !strings.Contains(body, "Flags: queryFlagAck") ||
-					!strings.Contains(body, "LTime: "+c.msg+".LTime") || !strings.Contains(body, "ID: "+c.msg+".ID") || strings.Contains(body, "return") {
+					!strings.Contains(body, "LTime: "+c.msg+".LTime") || !strings.Contains(body, "ID: "+c.msg+".ID") ||
+					!strings.Contains(body, "From: "+c.recv+".config.NodeName") || strings.Contains(body, "return") {
 					return nil, fmt.Errorf("unsupported ack block")
 				}
 				out = append(out, ".ackIf")
